@@ -1,7 +1,8 @@
 (* C20 -- Super learner weights are convex and built from out-of-fold predictions; StepwiseSL and AIC. *)
 From Coq Require Import QArith ZArith List Bool Arith Reals.
 From Zepid Require Import Base.QUtil Base.QSum Model.Bounds Model.SuperLearner Model.Stepwise
-     Proofs.SuperLearnerProofs Proofs.SuperLearnerR Proofs.StepwiseProofs.
+     Proofs.SuperLearnerProofs Proofs.SuperLearnerR Proofs.StepwiseProofs GenProofs.GenProofs_slcoef.
+From ZepidGen Require Import Gen_slcoef_Q.
 Import ListNotations.
 Open Scope Q_scope.
 
@@ -106,6 +107,23 @@ Example C20_nonvacuous_stepwise :
   stepwise (aic_tbl ex_tbl) true 3 = StepOk [0; 2]%nat 7 /\ stepwise (aic_tbl ex_tbl) false 3 = StepOk [0; 2]%nat 7.
 Proof. split; vm_compute; reflexivity. Qed.
 
+(* ---- SuperLearner.fit / .predict in the CURRENT source (translated on every run) are the model of the theorems above *)
+Theorem C20_src_coefficients : forall raw, src_coefficients raw = normalise raw.
+Proof. exact gen_sl_normalise. Qed.
+Theorem C20_src_coefficients_convex : forall raw c, src_coefficients raw = Some c ->
+  length c = length raw /\ Forall (fun x => 0 <= x) c /\ Qtotal c == 1.
+Proof. exact src_coefficients_convex. Qed.
+Theorem C20_src_discrete_one_hot : forall m sel, map (fun i => sl_discrete_elem_Q i sel) (seq 0 m) = one_hot m sel.
+Proof. exact gen_sl_discrete. Qed.
+Theorem C20_src_refit_decision : forall discrete norm c,
+  retained_of discrete norm c = if discrete then sl_discrete_refit_Q c (argmax norm) else sl_refit_Q (nth c norm 0).
+Proof. exact gen_sl_refit. Qed.
+Theorem C20_src_cv_error : forall y p, sl_cv_error_l2_Q y p = cv_error_l2 y p.
+Proof. exact gen_sl_cv_error. Qed.
+Theorem C20_src_predict : forall coefs preds,
+  sl_dot_Q (map (fun cp => sl_used_pred_Q (fst cp) (snd cp)) (combine coefs preds)) coefs == sl_predict_l2 coefs preds.
+Proof. exact gen_sl_predict. Qed.
+
 Print Assumptions C20_kfold_partition.
 Print Assumptions C20_holdout_discipline.
 Print Assumptions C20_holdout_checker_sound.
@@ -123,3 +141,9 @@ Print Assumptions C20_expit_monotone_range.
 Print Assumptions C20_stepwise_terminates.
 Print Assumptions C20_stepwise_not_worse.
 Print Assumptions C20_stepwise_local_min.
+Print Assumptions C20_src_coefficients.
+Print Assumptions C20_src_coefficients_convex.
+Print Assumptions C20_src_discrete_one_hot.
+Print Assumptions C20_src_refit_decision.
+Print Assumptions C20_src_cv_error.
+Print Assumptions C20_src_predict.
